@@ -138,7 +138,13 @@ def run(ctx, out, tier):
     for rx, what in ANY_VALIDATOR:
         n += 1 if require_propagated(ctx, out, "*", rx, what, bodies) else 0
     # explicit Err exits
-    n += explicit_err(ctx, out, "keep-sorted", ctx.validator_bodies("keep-sorted"), r"'asc'|'desc'", True, "a direction other than asc / desc", "direction")
+    # unknown sort direction: the `other` row of the direction table (case analysis, shared with C06.dir)
+    from rules.C06 import check_direction, work_view
+    wv = work_view(ctx)
+    if wv is not None:
+        check_direction(ctx, out, wv, rule="C13.dir", only_other=True)
+    else:
+        out.inst("C13.dir", 0, 3)
     n += explicit_err(ctx, out, "check-lua", ctx.validator_bodies("check-lua"), r"^str::is_empty\(str::trim\(", True, "an empty script path", "empty-path")
     n += explicit_err(ctx, out, "check-ai", ctx.validator_bodies("check-ai"), r"^str::is_empty\(str::trim\(", True, "an empty condition", "empty-condition")
     n += explicit_err(ctx, out, "check-ai", ctx.validator_bodies("check-ai") + [b for b in bodies if "check_ai" in b.id], r"^str::is_empty\(.*expose_secret", True, "a missing API key", "empty-key")
@@ -184,7 +190,7 @@ def run(ctx, out, tier):
     from rules.C06 import check_cmp_results
     if check_cmp_results(ctx, out, "C13.numeric") >= 2:
         n += 1
-    out.inst("C13.sites", n, 26, ["%s: %s" % (a, w) for a, r, w in PROPAGATED[:6]], note="%d propagated fallible calls + 7 explicit Err exits" % len(PROPAGATED))
+    out.inst("C13.sites", n, 25, ["%s: %s" % (a, w) for a, r, w in PROPAGATED[:6]], note="%d propagated fallible calls + 6 explicit Err exits" % len(PROPAGATED))
 
     # ------------------------------------------------------------------ C13.join
     j = 0
